@@ -866,7 +866,13 @@ fn gen_fn(ctx: &mut Ctx, fs_: &FnSpec) -> R<()> {
         ctx.trust.push(json!({"kind":"assume","rule":"E10","fn":fs_.path,"text":format!("assume(fresh_id({var}, txn@, parent_version_id))")}));
     }
     // proof blocks
-    for (anchor, c) in &fs_.proofs {
+    let mut proofs_all: Vec<(String, Clause)> = fs_.proofs.clone();
+    if std::env::var("TCSS_VACUITY").is_ok() && !fs_.clauses.iter().any(|c| c.kind == "ensures") {
+        // functions whose contract comes from a trait: their (trait-level) precondition must be satisfiable,
+        // i.e. `assert(false)` at the start of the body must FAIL
+        proofs_all.push(("start".to_string(), Clause { kind: "proof".into(), id: "vacuity.false".into(), tags: vec![], text: "{ assert(false); }".into(), place: String::new() }));
+    }
+    for (anchor, c) in &proofs_all {
         let parts: Vec<&str> = anchor.split_whitespace().collect();
         let pos = match parts.as_slice() {
             ["start"] => bo + 1,
